@@ -349,16 +349,41 @@ partial def exprAny (p : Model.Expr → Bool) (e : Model.Expr) : Bool :=
 
 def keyStr (k : Model.MType × Nat) : String := s!"{k.1.name}:{k.2}"
 
+/-- The action lists of all rules of a tree (every nesting level, inside attachment blocks too). -/
+partial def actionLists (e : Model.Expr) : List (List Model.Expr) :=
+  match e with
+  | .block _ a | .attBlock _ a => actionLists a
+  | .or _ a b => actionLists a ++ actionLists b
+  | .mtch _ _ rhs =>
+    match rhs with
+    | .block _ a => actionLists a
+    | r => [Spec.andChain r] ++ ((Spec.andChain r).map actionLists).flatten
+  | _ => []
+
+/-- Where `pass` / `break` stand (`Proofs.ctlPlaced` and the three named classes outside it): `PLACED`, or the
+first of `MIXED` (pass and break in one list: no documented meaning), `AFTERPASS` (something other than pass
+after a pass: ignored by the evaluator), `ATTAFTERBREAK` (an attachment block after a break). -/
+def placementClass (e : Model.Expr) : String :=
+  if Proofs.ctlPlaced e then "PLACED"
+  else
+    let ls := actionLists e
+    if ls.any Proofs.ctlMixed then "MIXED"
+    else if ls.any Proofs.actionAfterPass then "AFTERPASS"
+    else if ls.any Proofs.attAfterBreak then "ATTAFTERBREAK"
+    else "UNPLACED"
+
 /-- Specification side of `eval`: documented rule semantics over the valuation the matchers
-have on this message.  NOTWF when the tree is outside the specification's domain. -/
+have on this message (`Spec.parseBlockW`: `pass` / `break` anywhere in an action list).  NOTWF when the tree is
+outside the specification's domain (`NOTWF MIXED`: an action list with both pass and break).  The last field
+is `placementClass`: only `PLACED` trees are inside the domain of `C03_eval_refines_spec_wide`. -/
 def handleSpecEval (args : List Bytes) : String :=
   match args with
   | ast :: file :: path :: _dry :: now :: _ =>
     match Driver.parseExpr (String.ofList (ast.map fun c => Char.ofNat c.toNat)) with
     | none => "BADAST"
     | some e =>
-      match Spec.parseBlock e with
-      | none => "NOTWF"
+      match Spec.parseBlockW e with
+      | none => if placementClass e == "MIXED" then "NOTWF MIXED" else "NOTWF"
       | some rules =>
         let ctxDependent := exprAny (fun x => match x with
             | .command _ av => av.any (·.contains 92)
@@ -385,7 +410,7 @@ def handleSpecEval (args : List Bytes) : String :=
             | _ => false
           let o := Spec.evalBlock v aerr rules
           let (np, lp) := Spec.planOf (o.actions.filterMap Spec.actKey)
-          s!"{triName o.res} {if o.crosses then "CROSSES" else "LOCAL"} [{String.intercalate "," (np.map keyStr)}] {match lp with | none => "-" | some k => keyStr k}"
+          s!"{triName o.res} {if o.crosses then "CROSSES" else "LOCAL"} [{String.intercalate "," (np.map keyStr)}] {match lp with | none => "-" | some k => keyStr k} {placementClass e}"
   | _ => "BADOP"
 
 /-- Specification side of `eval` WITH attachment conditions and attachment blocks: the documented rule
@@ -393,15 +418,17 @@ semantics `Spec.evalBlockA` (Spec/RulesAtt.lean) in exactly the instance the the
 and `C04_eval_error_propagates` are about (`Proofs.partCtx`: the parts `message_get_attachments` returns and
 every matcher evaluated on its own; `Proofs.actionErr`).  Answer:
 `<MATCH|NOMATCH|ERROR> <CROSSES|LOCAL> <LEAKS|TIGHT> <DOM|NODOM> [type:line:part,...]` - the result, the two
-recorded deviation classes (F11, F24), whether the tree is in `Proofs.InDomainA`, and on a match the actions in
-order with the index of the part each was collected on.  NOTWF: not a tree the grammar builds. -/
+recorded deviation classes (F11, F24), whether the tree is in `Proofs.InDomainAW` (`InDomainA` and every action list
+`placedOK`: `pass` / `break` may stand anywhere except in the three named classes), and on a match the actions in
+order with the index of the part each was collected on.  NOTWF: not a tree the grammar builds, or an action list with
+both pass and break. -/
 def handleSpecEvalAtt (args : List Bytes) : String :=
   match args with
   | ast :: file :: path :: _dry :: now :: _ =>
     match Driver.parseExpr (String.ofList (ast.map fun c => Char.ofNat c.toNat)) with
     | none => "BADAST"
     | some e =>
-      match Spec.parseBlockA e with
+      match Spec.parseBlockAW e with
       | none => "NOTWF"
       | some rules =>
         let nowI : Int := ((String.ofList (now.map fun c => Char.ofNat c.toNat)).toInt?).getD 0
@@ -417,7 +444,7 @@ def handleSpecEvalAtt (args : List Bytes) : String :=
           let o := Spec.evalBlockA (Proofs.partCtx env msg mf) Proofs.actionErr msg rules
           let keys := o.actions.filterMap Spec.actKeyP
           let ks := keys.map fun k => s!"{k.1.name}:{k.2.1}:{k.2.2}"
-          s!"{triName o.res} {if o.crosses then "CROSSES" else "LOCAL"} {if o.leaks then "LEAKS" else "TIGHT"} {if Proofs.InDomainA env e then "DOM" else "NODOM"} [{String.intercalate "," ks}]"
+          s!"{triName o.res} {if o.crosses then "CROSSES" else "LOCAL"} {if o.leaks then "LEAKS" else "TIGHT"} {if Proofs.InDomainAW env e then "DOM" else "NODOM"} [{String.intercalate "," ks}]"
   | _ => "BADOP"
 
 /-- `interp <template> <path or ~ for no macro table> (<group>* 7c)*`: model and specification side by side. -/
